@@ -161,6 +161,14 @@ def unmodelled(ans):
     return "Unmodelled" in t or '"fatal"' in t or "unmodelled" in t
 
 
+def closure_of(src):
+    """the function `f` of `src` as a closure over K1, K2 (reads of GLOB1 become reads of the cell K1)"""
+    body = src.replace("GLOB1", "K1")
+    lines = body.rstrip("\n").split("\n")
+    return "def make_f():\n    K1 = 31\n    K2 = 32\n%s\n    return f\nf = make_f()\n" % "\n".join(
+        "    " + l if l else l for l in lines)
+
+
 def gen_program(rng, features=EXEC_FEATURES, weights=None):
     g = pylite.Gen(rng, features=features, weights=weights)
     gen = rng.random() < 0.3
@@ -168,6 +176,10 @@ def gen_program(rng, features=EXEC_FEATURES, weights=None):
     src = pylite.render(fn)
     gen = gen and "yield" in src
     fn["generator"] = gen
+    if rng.random() < 0.25 and "GLOB1" in src:
+        # a closure: some reads of globals become reads of variables of an enclosing function (the model's host
+        # supplies the same cells: K1 = 31, K2 = 32)
+        src = closure_of(src)
     args, script, gscript = progrun.gen_inputs(rng, fn)
     if gen:
         gscript = [["next"]] + [op for op in (gscript or [])[1:] if op[0] in ("next", "send", "throw")]
@@ -194,6 +206,8 @@ def exec_leg(chk, n, probes=True, weights=None, tag="exec"):
             pyprog.drop_module(mod)
             continue
         stats["programs"] += 1
+        if f.__code__.co_freevars:
+            stats["closures"] = stats.get("closures", 0) + 1
         real = progrun.drive(mod, f, args, script, gscript)
         pyprog.drop_module(mod)
         req = {"op": "exec", "fn": fj, "cfg": [], "mode": "plain", "args": args, "script": script, "inp": inp,
@@ -237,7 +251,8 @@ def exec_leg(chk, n, probes=True, weights=None, tag="exec"):
         if not probes:
             continue
         # (c) the reference semantics' events against a real probe
-        cands = names + (["#value"] if not gen else []) + (["GLOB1"] if reads_global(src, "f", "GLOB1") else [])
+        cands = names + (["#value"] if not gen else []) + (["GLOB1"] if reads_global(src, "f", "GLOB1") else []) \
+            + [x for x in f.__code__.co_freevars if x in ("K1", "K2")]
         if not cands:
             continue
         focus = rng.choice(cands)
